@@ -73,6 +73,8 @@ class ParserSessionProp(object):
         pass
 
     def generate(self, seed, index, tier, options):
+        if self.is_scale_run(index, tier):
+            return self.generate_scale(seed, index, tier, options)
         rng = gen.stream(seed, self.id + ':ops', index)
         knobs = self.bound_costs(self.knobs(rng, tier, options))
         fam = knobs['family']
@@ -90,6 +92,49 @@ class ParserSessionProp(object):
             ops.extend(self.gen_call(rng, world, knobs, cfg))
         return {'prop': self.id, 'seed': seed, 'index': index, 'world': wspec, 'ops': ops,
                 'knobs': knobs, 'executor': 'inprocess'}
+
+    # ------------------------------------------------------------ scale runs
+    scale_every = {'quick': 0, 'thorough': 0}      # 0 = never; C02/C09/C11 switch them on
+
+    def is_scale_run(self, index, tier):
+        every = self.scale_every.get(tier, 0)
+        return bool(every) and index % every == every // 2
+
+    def generate_scale(self, seed, index, tier, options):
+        """dimensions far beyond the ordinary runs: 64-425 supertags (425 is the size of the shipped English
+        inventory), sentences of 17-130 words, pruning_size 50 (the default) -- over a small synthetic grammar, so
+        that the search stays cheap.  Fixed-size buffers, narrow integer types and quadratic bookkeeping only show
+        at such sizes."""
+        import numpy
+        rng = gen.stream(seed, self.id + ':scale', index)
+        nprng = gen.np_stream(rng)
+        T = rng.choice([64, 130, 260, 425])
+        cats = [f'T{k}' for k in range(T)]
+        head = rng.random() < 0.5
+        table = {'T0 || T0': [['T0', 'r0', '<r0>', head]], 'T1 || T0': [['T0', 'r1', '<r1>', head]],
+                 'T0 || T2': [['T0', 'r2', '<r2>', head]], f'T0 || T{T - 1}': [['T0', 'r3', '<r3>', head]]}
+        unary = {'T1': [['T0', 'u0', '<u0>']], f'T{T - 1}': [['T0', 'u1', '<u1>']]}
+        sentences = []
+        for sid, n in enumerate([rng.choice([17, 33]), rng.choice([65, 100, 130]), 1, rng.choice([2, 5])]):
+            logits = nprng.normal(0.0, 1.0, size=(n, T))
+            for i in range(n):
+                logits[i, rng.choice([0, 0, 0, 1, 2, T - 1])] += 6.0
+            dl = nprng.normal(0.0, 1.0, size=(n, n + 1))
+            tag = (logits - numpy.log(numpy.exp(logits).sum(axis=1, keepdims=True))).astype(numpy.float32)
+            dep = (dl - numpy.log(numpy.exp(dl).sum(axis=1, keepdims=True))).astype(numpy.float32)
+            sentences.append({'words': [f's{sid}x{i}' for i in range(n)], 'tag': gen.arr_to_hex(tag),
+                              'dep': gen.arr_to_hex(dep), 'style': 'continuous', 'rich': False, 'favoured': None})
+        wspec = {'family': 'scale',
+                 'grammar': {'kind': 'synth', 'heads': 'left' if head else 'right', 'binary': table, 'unary': unary,
+                             'categories': cats, 'roots': ['T0'], 'lang': 'en'},
+                 'sentences': sentences}
+        cfg = {'unary_penalty': 0.1, 'beta': 1e-5, 'use_beta': True, 'pruning_size': rng.choice([50, 50, T, 3]),
+               'nbest': 1, 'max_step': 2000000, 'max_length': 250}
+        ops = [dict(cfg, op='call', batch=[0, 1, 2, 3], processes=2, max_chunk_size=20),
+               dict(cfg, op='call', batch=[3, 0, 2], processes=2, max_chunk_size=1,
+                    schedule={'default_service': 0.05, 'start_delay': {'0': 2.0, '1': 1.0, '2': 0.0}})]
+        return {'prop': self.id, 'seed': seed, 'index': index, 'world': wspec, 'ops': ops,
+                'knobs': {'family': 'scale', 'fault_class': 'none', 'nbest': 1}, 'executor': 'inprocess'}
 
     def gen_batch(self, rng, world, knobs):
         sids = list(range(len(world.tokens)))
@@ -279,6 +324,12 @@ class ParserSessionProp(object):
         bump(stats, 'sim_seconds', rec.sim.now)
         pooled = bool(rec.pool['pools'])
         bump(stats, 'calls_pooled' if pooled else 'calls_inprocess')
+        if world.spec.get('family') == 'scale':
+            bump(stats, 'scale_calls')
+            stats['counters']['largest_sentence_words'] = max(stats['counters'].get('largest_sentence_words', 0),
+                                                               max(world.n(s) for s in op['batch']))
+            stats['counters']['largest_tag_inventory'] = max(stats['counters'].get('largest_tag_inventory', 0),
+                                                              len(world.categories))
         add_set(stats, 'schedule_signatures', digest(rec.schedule_sig))
         fault = op.get('fault') or {}
         if pooled and op.get('executor_mode') == 'replica':
